@@ -390,7 +390,10 @@ Laws(k, v) ==
         \* answer mapped through the view
    \cup Law("UidSeq", /\ ResU(k, v, Ideal) = ToUids(R(k), v)
                       /\ AltsU(k, v, Ideal) = {ToUids(A, v) : A \in Alts(k, v, Ideal)}
-                      /\ R(k) \in Alts(k, v, Ideal))
+                      \* (Ideal reads dates "as written, as written"; when the measured
+                      \* reading of the server is another single one, its answer need not
+                      \* be among the alternatives)
+                      /\ Ideal.date \in DateModes => R(k) \in Alts(k, v, Ideal))
         \* every rewriting in Equivs(k) selects the same messages, under every
         \* reading of the dates
    \cup Law("Equiv", \A e \in Equivs(k) : \A dm \in DateModes :
